@@ -71,10 +71,12 @@ CLAIMED = {
          "with plot_utils on generated and malformed strings.",
          NOTE_COMMON + "Numeral -> value is the modelled decimal grammar (inf/nan/underscore literals are outside it); float rounding executed by Base/Rnd.v.",
          "DESIGN.md section 5, C12"),
- "C13": ("Coq proof: adjacency = Chebyshev-1 neighbourhood for all bins, nearest() = first minimum over the stored ids of the neighbourhood; grid invariant NOT proved (partial); history correspondence",
-         "Theorems C13_adjacent, C13_within_one_cell, C13_nearest_partial. The statement that after construction and removals each cell holds exactly the live ends lying in it is not proved; "
-         "that part is carried by the correspondence: the model is replayed on histories of queries and removals on Fractions, and every answer is judged by brute force over the live ends.",
-         NOTE_COMMON, "DESIGN.md section 5, C13"),
+ "C13": ("Coq proof for every path list, bins >= 1, reversal setting and removal history: grid invariant by induction over removals, adjacency = Chebyshev-1, nearest() over the live ends; history correspondence on Fractions",
+         "Theorems C13_nearest (construction files every end in range in the cell of its coordinates; removals of distinct existing paths never raise and take out exactly that path's ends; "
+         "a query returns None exactly when no end is alive, otherwise the id of a live end at least as close as every live end in the query's cell and its eight neighbours, and as every live end "
+         "when those hold none), C13_none_iff, C13_one_cell_width (an end within one cell width of the query is in a neighbouring cell, so the result is at least as close as it), C13_adjacent, "
+         "C13_build. The model is replayed on histories of queries and removals on Fractions, and every answer is judged by brute force over the live ends.",
+         NOTE_COMMON + "Exact rational arithmetic; floats are judged, not modelled. Removing a path twice (ValueError in the code) is outside the theorem's hypotheses.", "DESIGN.md section 5, C13"),
  "C14": ("Coq proof: query = brute force for all box lists (induction on fuel = size) + exact-rational correspondence",
          "Theorem C14_query_eq_brute: for every list of valid boxes and every query the model of Index(...).intersection returns exactly the ids whose box overlaps the query; "
          "C14_terminates: the recursion depth is bounded by the number of boxes (fuel-irrelevance); C14_strict_refuted: the constructor as found (strict tests) violated the property "
